@@ -278,9 +278,9 @@ NEXT_TRANSPARENT = re.compile(TRANSPARENT.pattern[:-2] + r"|.*Iterator>::next|(s
 
 
 FS_MUT = re.compile(
-    r"^(std::fs|tokio::fs|fs2|memmap2)::.*(File::create|File::create_new|File::set_len|File::options|OpenOptions::(write|append|truncate|create|create_new)|"
-    r"fs::write|fs::rename|fs::remove_file|fs::remove_dir|fs::remove_dir_all|fs::create_dir|fs::create_dir_all|fs::copy|fs::hard_link|fs::set_permissions|"
-    r"DirBuilder::create|MmapMut|map_mut|map_copy)\b")
+    r"^((std::fs|tokio::fs)::(write|rename|remove_file|remove_dir|remove_dir_all|create_dir|create_dir_all|copy|hard_link|set_permissions|"
+    r"File::create|File::create_new|File::set_len|OpenOptions::(write|append|truncate|create|create_new)|DirBuilder::create)"
+    r"|memmap2::.*(MmapMut\b.*|map_mut|map_copy)|fs2::.*(allocate|set_len)|tempfile::.*)$")
 
 
 def fs_mut_leaves(cg, node):
